@@ -78,7 +78,7 @@ pub struct Interpreter<TStdlib: Stdlib, TStdIn: Input, TStdOut: Printer, TLpt1: 
     /// Holds, for every active subprogram call and for the main module, the
     /// depths of the value stack and of the var path stack at the start of
     /// the statement that is being executed
-    statement_depths: Vec<(usize, usize, usize)>,
+    statement_depths: Vec<(usize, usize, usize, usize)>,
 
     /// Holds the depths of the register stack and of the value stack at the
     /// entry of every active subprogram call, GOSUB and error handler (and of
@@ -346,7 +346,7 @@ impl<TStdlib: Stdlib, TStdIn: Input, TStdOut: Printer, TLpt1: Printer>
             by_ref_stack: VecDeque::new(),
             function_result: vec![],
             value_stack: vec![],
-            statement_depths: vec![(0, 0, 0)],
+            statement_depths: vec![(0, 0, 0, 0)],
             nesting_bases: vec![NestingBase {
                 kind: NestingKind::Call,
                 registers: 1,
@@ -569,6 +569,7 @@ impl<TStdlib: Stdlib, TStdIn: Input, TStdOut: Printer, TLpt1: Printer>
                     self.value_stack.len(),
                     self.var_path_stack.len(),
                     self.by_ref_stack.len(),
+                    self.function_result.len(),
                 ));
                 // the callee gets registers of its own: the caller might be in the
                 // middle of a FOR header, with the upper bound and the step in registers
@@ -834,6 +835,7 @@ impl<TStdlib: Stdlib, TStdIn: Input, TStdOut: Printer, TLpt1: Printer>
             self.value_stack.len(),
             self.var_path_stack.len(),
             self.by_ref_stack.len(),
+            self.function_result.len(),
         );
         if let Some(last) = self.statement_depths.last_mut() {
             *last = depths;
@@ -843,10 +845,12 @@ impl<TStdlib: Stdlib, TStdIn: Input, TStdOut: Printer, TLpt1: Printer>
     /// Drops the values and paths that a failed statement pushed and did not
     /// get to pop.
     fn restore_statement_depths(&mut self) {
-        if let Some((values, paths, by_refs)) = self.statement_depths.last() {
+        if let Some((values, paths, by_refs, results)) = self.statement_depths.last() {
             self.value_stack.truncate(*values);
             self.var_path_stack.truncate(*paths);
             self.by_ref_stack.truncate(*by_refs);
+            // the result of a function whose by-ref arguments could not be stored back
+            self.function_result.truncate(*results);
         }
     }
 
